@@ -147,8 +147,11 @@ PROPS = {
         "assumptions": ["VRF outputs taken from the real HardCodedAkdVRF as an oracle table; collision-free on the inputs in play"],
     },
     "C02": {
-        "thm_module": ["AkdModel.Thm.C05"],
-        "theorems": ["Akd.C05.membership_complete", "Akd.C05.membership_complete_leaf", "Akd.C05.nonmembership_complete"],
+        "thm_module": ["AkdModel.Thm.C02"],
+        "theorems": ["Akd.C02.lookup_complete", "Akd.C02.lookup_unpublished", "Akd.C02.rootHash_refines",
+                     "Akd.C02.membershipProof_refines", "Akd.C02.nonMembershipProof_refines", "Akd.C02.noProperPrefix_of_256",
+                     "Akd.C02.membershipProof_refines_counterexample",
+                     "Akd.C05.membership_complete", "Akd.C05.membership_complete_leaf", "Akd.C05.nonmembership_complete"],
         "streams": ["l1.dir.c02"],
         "rule": "histories as in C01 with a label updated in every epoch (versions 1,2,3,... crossing powers of two); after every "
                 "publish, for EVERY label of the pool (published or not): the real LookupProof compared field by field with the "
@@ -157,8 +160,9 @@ PROPS = {
         "assumptions": [],
     },
     "C03": {
-        "thm_module": ["AkdModel.Thm.C05", "AkdModel.Thm.C08"],
-        "theorems": ["Akd.C05.membership_complete", "Akd.C05.membership_complete_leaf", "Akd.C05.nonmembership_complete",
+        "thm_module": ["AkdModel.Thm.C03"],
+        "theorems": ["Akd.C03.history_complete",
+                     "Akd.C05.membership_complete", "Akd.C05.membership_complete_leaf", "Akd.C05.nonmembership_complete",
                      "Akd.C08.markers_no_panic", "Akd.C08.past_lt_start", "Akd.C08.future_bounds"],
         "streams": ["l1.dir.c03"],
         "rule": "histories as in C02; for every label: Complete and MostRecent(n) for n in {1,2,3,total,total+1,1000}: real "
@@ -167,8 +171,10 @@ PROPS = {
         "assumptions": [],
     },
     "C04": {
-        "thm_module": ["AkdModel.Thm.C01a"],
-        "theorems": ["Akd.C01.wf_unique", "Akd.C01.ofLeaves_perm"],
+        "thm_module": ["AkdModel.Thm.C04"],
+        "theorems": ["Akd.C04.audit_complete", "Akd.C04.audit_complete_dense", "Akd.C04.appendOnlyProof_eq",
+                     "Akd.C04.audit_refused", "Akd.C04.audit_counterexample",
+                     "Akd.C01.wf_unique", "Akd.C01.ofLeaves_perm"],
         "streams": ["l1.dir.c04"],
         "rule": "histories of up to 12 epochs; at several points ALL pairs (s,e) in [0,E+1]^2: the real audit proof compared with the "
                 "model's (as sets) and verified by the real audit_verify against the recorded published root hashes; oracle: "
@@ -333,8 +339,10 @@ PROPS = {
         "assumptions": ["rust-protobuf's generated code is modelled (match on full tag, limits, recursion levels), not verified"],
     },
     "C20": {
-        "thm_module": ["AkdModel.Thm.C05"],
-        "theorems": ["Akd.C05.membership_sound_leaf"],
+        "thm_module": ["AkdModel.Thm.C20", "AkdModel.Thm.C05"],
+        "theorems": ["Akd.C20." + t for t in ["tombstone_keeps_tree", "tombstone_epochHash", "tombstone_audit",
+                                               "tombstone_other_lookup", "tombstone_own_lookup", "tombstone_then_publish"]]
+                    + ["Akd.C05.membership_sound_leaf"],
         "streams": ["l1.dir.c20"],
         "rule": "histories with tombstone_value_states(label, cut) at random points (cut below the label's latest update), followed by "
                 "further publishes; after each: epoch hash vs specification (unchanged), every label's lookup (oracle spec.lookup), "
